@@ -216,7 +216,7 @@ def task(prop, seed, size, cfgbins, iters=0):
 
 def run(prop, tier, seed, t0):
     from .. import plan
-    cfgs = ['simd', 'serial32', 'fiat64', 'simd-notables'] if tier == 'quick' else plan.ALL_CFGS + ['simd-notables', 'serial32-notables']
+    cfgs = plan.ALL_CFGS + ['simd-notables'] if tier == 'quick' else plan.ALL_CFGS + ['simd-notables', 'serial32-notables']
     bins, notes, failed = plan.bins_for(cfgs, ('rel', 'chk') if tier == 'thorough' else ('rel',))
     if failed:
         return plan.fail_build(prop, failed)
